@@ -403,7 +403,7 @@ def _key(cfg):
 
 
 def shards(tier):
-    n = 200 if tier == "quick" else 5000
+    n = 500 if tier == "quick" else 5000
     out = [Shard(f"hexital-{i}", lambda: programs("hexital"), n, subject="hexital", cost=2) for i in range(11)]
     out += [Shard(f"indicator-{i}", lambda: programs("indicator"), n, subject="indicator") for i in range(5)]
     out += [Shard(f"hexital-churn-{i}", lambda: churn_programs(), n // 2, subject="hexital", cost=2) for i in range(2)]
